@@ -261,7 +261,7 @@ fn case() -> BoxedStrategy<Case> {
         2 => Just(Seg::InsideHeaders),
     ];
     // replies far larger than a socket buffer: in one case out of eight
-    let large = proptest::option::weighted(0.125, (select(vec![300_000usize, 2_000_000, 6_000_000]), any::<u8>(), any::<u16>()));
+    let large = proptest::option::weighted(0.125, (select(vec![300_000usize, 1_500_000, 4_000_000]), any::<u8>(), any::<u16>()));
     (proptest::collection::vec(item(), 1..40), seg, select(vec![0u8, 0, 1, 3]), large)
         .prop_map(|(mut items, seg, pause_ms, large)| {
             if let Some((n, b, pos)) = large {
@@ -342,6 +342,10 @@ fn cut_points(b: &Built, seg: &Seg) -> Vec<usize> {
 
 /// Send `bytes` cut at `cuts`, collecting reply bytes; returns (received bytes, connection closed).
 fn exchange(c: &mut Client, bytes: &[u8], cuts: &[usize], pause_ms: u8, expect_frames: usize, read_delay_ms: u64) -> (Vec<u8>, bool) {
+    exchange_patient(c, bytes, cuts, pause_ms, expect_frames, read_delay_ms, 1500)
+}
+
+fn exchange_patient(c: &mut Client, bytes: &[u8], cuts: &[usize], pause_ms: u8, expect_frames: usize, read_delay_ms: u64, patience_ms: u64) -> (Vec<u8>, bool) {
     let _ = c.stream.set_nonblocking(true);
     let mut received = Vec::new();
     let mut closed = false;
@@ -403,7 +407,8 @@ fn exchange(c: &mut Client, bytes: &[u8], cuts: &[usize], pause_ms: u8, expect_f
         if err.is_some() || (frames.len() >= expect_frames && leftover == 0) || closed {
             break;
         }
-        if last_progress.elapsed() > Duration::from_millis(1500) {
+        // silence bound: 1.5 s, plus 1.5 s per MB sent (the server ingests 8 KB per loop turn)
+        if last_progress.elapsed() > Duration::from_millis(patience_ms + (bytes.len() as u64 * 1500) / 1_000_000) {
             break;
         }
         std::thread::sleep(Duration::from_micros(300));
@@ -501,7 +506,25 @@ pub fn exec_case(wk: &mut Worker, c: &Case) -> CaseResult {
     let nontrivial = c.items.len() >= 3 && c.items.iter().any(|i| !i.must_err.is_empty()) && (split_frames || hostile);
     let trace = json!({"items": c.items.len(), "bytes": b.bytes.len(), "segments": cuts.len() + 1, "seg": format!("{:?}", c.seg).chars().take(60).collect::<String>(), "first_requests": b.expect.iter().take(6).map(|e| e.2.chars().take(80).collect::<String>()).collect::<Vec<_>>(), "reply_head": resp::show_bytes(&received[..received.len().min(160)])});
     let mut res = CaseResult { verdict: Verdict::Pass, labels, nontrivial, excluded: vec![], trace: Some(trace) };
-    if let Err((what, sig)) = judge(&b, &received, closed) {
+    let mut verdict = judge(&b, &received, closed);
+    let (mut received, mut closed) = (received, closed);
+    if matches!(&verdict, Err((_, sig)) if sig == "missing-reply" || sig == "truncated-reply") && !closed {
+        // a silence verdict must be confirmed: same case once more on a fresh connection, with
+        // four times the patience
+        if let Ok(mut conn2) = prepare(wk) {
+            let (r2, c2) = exchange_patient(&mut conn2, &b.bytes, &cuts, c.pause_ms, b.expect.len(), read_delay, 6000);
+            let v2 = judge(&b, &r2, c2);
+            if v2.is_ok() {
+                res.labels.push("slow-but-answered".into());
+            }
+            verdict = v2;
+            received = r2;
+            closed = c2;
+            conn = conn2;
+        }
+    }
+    let _ = closed;
+    if let Err((what, sig)) = verdict {
         if let Some(s) = wk.server.as_mut() {
             if !s.alive() {
                 let ps = s.panic_signature().unwrap_or_default();
@@ -527,8 +550,12 @@ pub fn exec_case(wk: &mut Worker, c: &Case) -> CaseResult {
             Ok(c) => c,
             Err(e) => return CaseResult::infra(e),
         };
-        let (received2, _) = exchange(&mut conn2, &b.bytes, &[], 0, b.expect.len(), 0);
-        if received2 != received {
+        let (received2, _) = exchange_patient(&mut conn2, &b.bytes, &[], 0, b.expect.len(), 0, 6000);
+        if resp::decode_all(&received2).0.len() < b.expect.len() {
+            // the one-write run is incomplete: nothing to compare (the one-write form is judged on
+            // its own by the cases generated with Seg::Whole)
+            res.labels.push("differential-skipped-incomplete".into());
+        } else if received2 != received {
             let (f1, _, _) = resp::decode_all(&received);
             let (f2, _, _) = resp::decode_all(&received2);
             let idx = f1.iter().zip(&f2).position(|(a, b)| a != b).unwrap_or(f1.len().min(f2.len()));
